@@ -587,6 +587,17 @@ def run_package(spec, rec):
     go("stray-iwa-empty", lambda: open(os.path.join(work, "stray.iwa"), "wb").close())
     go("stray-iwa-framed-garbage", lambda: open(os.path.join(work, "stray.iwa"), "wb").write(b"\x00\x03\x00\x00abc"))
     go("stray-dir", lambda: os.makedirs(os.path.join(work, "Data", "sub", "sub2")))
+    def stray(rel, data):
+        os.makedirs(os.path.dirname(os.path.join(work, rel)) or work, exist_ok=True)
+        with open(os.path.join(work, rel), "wb") as f:
+            f.write(data)
+    # stray members by name: the marker of an encrypted document, hidden files, a second Index.zip, files where folders are expected
+    for rel in (".iwph", "Index/.iwph", "Metadata/.iwph", "Data/.iwph", "Data/sub/.iwph", ".DS_Store", "Data/.DS_Store", "Index/Index.zip", "Data/Index.zip",
+                "extra/Index.zip", "Index/Document.iwa.bak", "preview.jpg", "Metadata/.hidden.plist"):
+        for dname, data in (("empty", b""), ("x", b"x"), ("pk", b"PK\x05\x06" + b"\0" * 18)):
+            if os.path.exists(os.path.join(src, rel)):
+                continue
+            go(f"stray-{rel}-{dname}", lambda rel=rel, data=data: stray(rel, data))
     go("iwph-in-index", lambda: _append_member(os.path.join(work, idx), ".iwph", b"x") if idx else None)
     shutil.rmtree(work, ignore_errors=True)
     rec.sample({"package_source": spec["source"], "index": idx})
